@@ -403,3 +403,49 @@ Proof.
   match goal with |- bytes_eqb ?x ?y = true => assert (E : x = y); [|rewrite E; apply bytes_eqb_refl] end.
   unfold window. apply rd_ext. intros x _. now apply update_exact.
 Qed.
+
+Lemma sym_eq_dec (s t : sym) : {s = t} + {s <> t}.
+Proof. decide equality; try apply N.eq_dec; apply (list_eq_dec N.eq_dec). Qed.
+
+(* the size filter over the whole update: a visited function smaller than max(min_size, 6) whose
+   last match is not a -U keeps its first nine bytes *)
+Theorem size_filter_update O c syms targets m k s :
+  disjoint_fps (visited c syms targets) -> In s (visited c syms targets) ->
+  s_size s < N.max (c_min c) 6 -> (spec_decision O c s =? -1)%Z = false ->
+  forall a, fp s a = true -> fst (patch_func_matched O c syms targets (m, k)) a = m a.
+Proof.
+  intros D I Hs Hd a Fa. apply unselected_untouched; [exact D|].
+  intros t It Ft. destruct (sym_eq_dec s t) as [<-|Ne]; [now apply spec_size_filter|].
+  rewrite (In_disjoint _ s t D I It Ne a Fa) in Ft. discriminate.
+Qed.
+
+(* ---------- the command line ---------- *)
+Theorem cli_last_option_wins O def t o l lib so name :
+  Forall wf_opt (o :: l) ->
+  match_pattern_list O (parse_pattern_list O (render_opts (o :: l)) def t) lib so name
+  = polarity (last_hit O (map (item_of_opt O def t) (o :: l)) lib so name).
+Proof. intro H. rewrite parse_render by exact H. apply last_match_wins. Qed.
+
+(* ---------- a faithful-model corner: the size gate is 6 bytes but an endbr64 function needs 9 ---------- *)
+Definition O0 : oracle := {| o_regcomp := fun _ => false; o_regexec := fun _ _ => false; o_fnmatch := fun _ _ => false |}.
+Definition spill_A : sym := {| s_addr := 0; s_size := 6; s_type := ST_GLOBAL_FUNC; s_name := [97] |}.
+Definition spill_B : sym := {| s_addr := 6; s_size := 3; s_type := ST_GLOBAL_FUNC; s_name := [98] |}.
+Definition spill_mem : mem := mem_of 0 (endbr64 ++ [144; 144] ++ [144; 144; 144] ++ [195; 204; 204; 204; 204; 204; 204; 204]).
+Definition spill_cfg : cfg :=
+  {| c_pats := [{| pi_patt := {| pt_type := PGlob; pt_str := [42] |}; pi_mod := []; pi_pos := true |}];
+     c_lib := [109]; c_so := None; c_ty := DFentryNop; c_tramp := 4080; c_min := 0 |}.
+Lemma spill_refuted :
+  s_addr spill_A + s_size spill_A <= s_addr spill_B        (* the two symbols do not overlap *)
+  /\ s_size spill_B < 6                                      (* B is below the size gate *)
+  /\ fst (patch_func_matched O0 spill_cfg [spill_A; spill_B] [] (spill_mem, stats0)) 6 <> spill_mem 6.
+Proof. vm_compute. repeat split; congruence. Qed.
+
+(* non-vacuity of the exactness theorem: two adjacent 16-byte functions *)
+Definition ex_syms : list sym :=
+  [{| s_addr := 16; s_size := 16; s_type := ST_GLOBAL_FUNC; s_name := [97] |};
+   {| s_addr := 32; s_size := 16; s_type := ST_LOCAL_FUNC; s_name := [98] |}].
+Example ex_disjoint : disjoint_fps (visited spill_cfg ex_syms []).
+Proof.
+  cbn. split; [|split; [intros t []|exact I]].
+  intros t [<-|[]] a. unfold fp, in_span. cbn [s_addr]. lia.
+Qed.
